@@ -1034,3 +1034,234 @@ example : (Micro.run {} [.write 1, .write 2, .giveUp 1, .deliver, .tick]).log = 
   decide
 
 end HapVerif.ReqConn
+
+/-! ## The request slot across a reconnection (`ReqConn.Queue`) -/
+
+namespace HapVerif.ReqConn.Queue
+
+/-- everything written so far went out on the connection it was issued on -/
+def SentOk (s : St) : Prop := ∀ p ∈ s.sent, p.2.1 = p.2.2
+
+theorem grant_sentOk (q : List (Nat × Nat)) (s : St) (h : SentOk s) : SentOk (grant true q s) := by
+  induction q generalizing s with
+  | nil => simpa [grant, SentOk] using h
+  | cons a rest ih =>
+    obtain ⟨id, issuedOn⟩ := a
+    unfold grant
+    by_cases hu : s.up = true
+    · by_cases hc : issuedOn = s.conn
+      · simp only [hu, Bool.not_true, Bool.false_eq_true, ↓reduceIte, Bool.true_and, hc, bne_self_eq_false]
+        intro p hp
+        simp only [List.mem_append, List.mem_singleton] at hp
+        rcases hp with hp | rfl
+        · exact h p hp
+        · rfl
+      · have : (issuedOn != s.conn) = true := by simpa using hc
+        simp only [hu, Bool.not_true, Bool.false_eq_true, ↓reduceIte, Bool.true_and, this]
+        exact ih _ (by simpa [SentOk] using h)
+    · have hu' : s.up = false := by simpa using hu
+      simp only [hu', Bool.not_false, ↓reduceIte]
+      exact ih _ (by simpa [SentOk] using h)
+
+theorem settle_sentOk (s : St) (h : SentOk s) : SentOk (settle true s) := by
+  unfold settle
+  cases hf : s.failing with
+  | none =>
+    simp only
+    cases hh : s.holder with
+    | none => exact grant_sentOk _ _ h
+    | some _ => exact h
+  | some id =>
+    simp only
+    exact grant_sentOk _ _ (by simpa [SentOk] using h)
+
+theorem step_sentOk (s : St) (e : Ev) (h : SentOk s) : SentOk (step true s e) := by
+  cases e with
+  | issue id =>
+    simp only [step]
+    have h1 := settle_sentOk s h
+    split
+    · simpa [SentOk] using h1
+    · exact settle_sentOk _ (by simpa [SentOk] using h1)
+  | answer =>
+    simp only [step]
+    have h1 := settle_sentOk s h
+    split
+    · split
+      · exact settle_sentOk _ (by simpa [SentOk] using h1)
+      · exact h1
+    · exact h1
+  | lose =>
+    simp only [step]
+    split
+    · simpa [SentOk] using h
+    · exact h
+  | reconnect =>
+    simp only [step]
+    split
+    · exact h
+    · simpa [SentOk] using h
+  | tick => exact settle_sentOk s h
+
+/-- when no queued request was issued on the current connection, every one of them fails and nothing is written -/
+theorem grant_all_fail (q : List (Nat × Nat)) (s : St) (hup : s.up = true) (h : ∀ x ∈ q, x.2 ≠ s.conn) :
+    grant true q s = { s with queue := [], log := s.log ++ q.map (fun x => (x.1, Outcome.disconnected)) } := by
+  induction q generalizing s with
+  | nil => simp [grant]
+  | cons a rest ih =>
+    obtain ⟨id, issuedOn⟩ := a
+    have hne : (issuedOn != s.conn) = true := by simpa using h (id, issuedOn) (by simp)
+    unfold grant
+    simp only [hup, Bool.not_true, Bool.false_eq_true, ↓reduceIte, Bool.true_and, hne]
+    refine (ih { s with up := true, log := s.log ++ [(id, Outcome.disconnected)] } rfl
+      (fun x hx => h x (List.mem_cons_of_mem _ hx))).trans ?_
+    simp
+
+/-- queued requests were issued on the current connection or an earlier one -/
+def QLe (s : St) : Prop := ∀ x ∈ s.queue, x.2 ≤ s.conn
+
+theorem grant_QLe (q : List (Nat × Nat)) (s : St) (h : ∀ x ∈ q, x.2 ≤ s.conn) : QLe (grant true q s) := by
+  induction q generalizing s with
+  | nil => simp [grant, QLe]
+  | cons a rest ih =>
+    obtain ⟨id, issuedOn⟩ := a
+    unfold grant
+    have hr : ∀ x ∈ rest, x.2 ≤ s.conn := fun x hx => h x (List.mem_cons_of_mem _ hx)
+    split
+    · exact ih _ hr
+    · split
+      · exact ih _ hr
+      · exact hr
+
+theorem settle_QLe (s : St) (h : QLe s) : QLe (settle true s) := by
+  unfold settle
+  cases hf : s.failing with
+  | none =>
+    simp only
+    cases hh : s.holder with
+    | none => exact grant_QLe _ _ h
+    | some _ => exact h
+  | some id =>
+    simp only
+    exact grant_QLe _ _ h
+
+theorem step_QLe (s : St) (e : Ev) (h : QLe s) : QLe (step true s e) := by
+  cases e with
+  | issue id =>
+    simp only [step]
+    have h1 := settle_QLe s h
+    split
+    · exact h1
+    · apply settle_QLe
+      intro x hx
+      simp only [List.mem_append, List.mem_singleton] at hx
+      rcases hx with hx | rfl
+      · exact h1 x hx
+      · exact Nat.le_refl _
+  | answer =>
+    simp only [step]
+    have h1 := settle_QLe s h
+    split
+    · split
+      · exact settle_QLe _ h1
+      · exact h1
+    · exact h1
+  | lose =>
+    simp only [step]
+    split
+    · exact h
+    · exact h
+  | reconnect =>
+    simp only [step]
+    split
+    · exact h
+    · intro x hx
+      have := h x hx
+      dsimp only at hx ⊢
+      omega
+  | tick => exact settle_QLe s h
+
+end HapVerif.ReqConn.Queue
+
+namespace HapVerif.ReqConn
+open Queue (SentOk)
+
+/-- **A request is only ever written on the connection it was issued on** - in every history of callers, answers, session
+    losses, reconnections by the supervisor and loop runs, with the slot handed from caller to caller in between: a request
+    that was still queued when its connection was lost is never sent on the connection that replaces it (which, in the real
+    library, is not even encrypted yet). -/
+theorem C08_queue_sent_on_issue_connection (evs : List Queue.Ev) :
+    ∀ p ∈ (Queue.run true {} evs).sent, p.2.1 = p.2.2 := by
+  have h : ∀ (evs : List Queue.Ev) (s : Queue.St), SentOk s → SentOk (Queue.run true s evs) := by
+    intro evs
+    induction evs with
+    | nil => intro s hs; exact hs
+    | cons e es ih => intro s hs; exact ih _ (Queue.step_sentOk s e hs)
+  exact h evs {} (by simp [SentOk])
+
+/-- the code as found on the unchanged tree (it only asked whether SOME protocol exists) does not have this property:
+    request 2, issued and queued on connection 0, goes out on connection 1 when the session is lost and the supervisor
+    reconnects before the loop lets the queued caller run - kernel-checked witness of the defect repaired in /repo -/
+theorem C08_queue_counterexample_unguarded :
+    (Queue.run false {} [.issue 1, .issue 2, .lose, .reconnect, .tick]).sent = [(1, 0, 0), (2, 1, 0)] := by decide
+
+/-- ... and with the guard the same history fails both requests with a disconnection error and writes nothing more -/
+theorem C08_queue_lost_requests_fail :
+    (Queue.run true {} [.issue 1, .issue 2, .lose, .reconnect, .tick]).sent = [(1, 0, 0)] ∧
+    (Queue.run true {} [.issue 1, .issue 2, .lose, .reconnect, .tick]).log =
+      [(1, Queue.Outcome.disconnected), (2, Queue.Outcome.disconnected)] := by decide
+
+/-- **every outstanding request fails once the loop runs, however fast the supervisor reconnects**: in any reachable state
+    with a live session, when the session is lost and the next connection is installed before any caller has run, then after
+    the loop has run the request that was on the wire and every request that was queued for the slot have failed with a
+    disconnection error, nothing has been written on the new connection, and the slot is free -/
+theorem C08_queue_outstanding_fail (evs : List Queue.Ev) (hup : (Queue.run true {} evs).up = true)
+    (hf : (Queue.run true {} evs).failing = none) :
+    let s := Queue.run true {} evs
+    let s' := Queue.settle true (Queue.step true (Queue.step true s .lose) .reconnect)
+    s'.holder = none ∧ s'.queue = [] ∧ s'.sent = s.sent ∧
+    (∀ q ∈ s.queue, (q.1, Queue.Outcome.disconnected) ∈ s'.log) ∧
+    (∀ h, s.holder = some h → (h.1, Queue.Outcome.disconnected) ∈ s'.log) := by
+  have hq : ∀ (evs : List Queue.Ev) (s : Queue.St), Queue.QLe s → Queue.QLe (Queue.run true s evs) := by
+    intro evs
+    induction evs with
+    | nil => intro s hs; exact hs
+    | cons e es ih => intro s hs; exact ih _ (Queue.step_QLe s e hs)
+  have hle := hq evs {} (by simp [Queue.QLe])
+  generalize Queue.run true {} evs = s at hup hf hle
+  intro s0 s'
+  have hne : ∀ x ∈ s.queue, x.2 ≠ s.conn + 1 := fun x hx => by have := hle x hx; omega
+  cases hh : s.holder with
+  | none =>
+    have e : s' = { s with up := true, conn := s.conn + 1, queue := [],
+                           log := s.log ++ s.queue.map (fun x => (x.1, Queue.Outcome.disconnected)) } := by
+      simp only [s', s0, Queue.step, hup, hh, ↓reduceIte, Option.map_none, Bool.false_eq_true, Queue.settle]
+      rw [Queue.grant_all_fail _ _ rfl (by simpa using hne)]
+      simp [hf]
+    rw [e]
+    refine ⟨hh, rfl, rfl, ?_, ?_⟩
+    · intro q hq'
+      simp only [List.mem_append, List.mem_map]
+      right; exact ⟨q, hq', rfl⟩
+    · intro h hh'; cases hh'
+  | some hd =>
+    have e : s' = { s with up := true, conn := s.conn + 1, queue := [], holder := none, failing := none,
+                           log := s.log ++ [(hd.1, Queue.Outcome.disconnected)] ++
+                                  s.queue.map (fun x => (x.1, Queue.Outcome.disconnected)) } := by
+      simp only [s', s0, Queue.step, hup, hh, ↓reduceIte, Option.map_some, Bool.false_eq_true, Queue.settle]
+      rw [Queue.grant_all_fail _ _ rfl (by simpa using hne)]
+    rw [e]
+    refine ⟨rfl, rfl, rfl, ?_, ?_⟩
+    · intro q hq'
+      simp only [List.mem_append, List.mem_map]
+      right; exact ⟨q, hq', rfl⟩
+    · intro h hh'
+      simp only [Option.some.injEq] at hh'
+      subst hh'
+      simp
+
+/-- non-vacuity of the hypotheses: a live session with one request on the wire and two queued -/
+example : (Queue.run true {} [.issue 1, .issue 2, .issue 3]).up = true ∧ (Queue.run true {} [.issue 1, .issue 2, .issue 3]).failing = none ∧
+    (Queue.run true {} [.issue 1, .issue 2, .issue 3]).queue = [(2, 0), (3, 0)] := by decide
+
+end HapVerif.ReqConn
